@@ -88,7 +88,7 @@ Definition reserve (e : ecfg) (v : vec) (extra : N) (exact : bool) : outcome vec
   end.
 
 (* RawVec::allocate_in via Vec::with_capacity_in *)
-Definition with_capacity (e : ecfg) (cap : N) : outcome vec :=
+Definition vwith_capacity (e : ecfg) (cap : N) : outcome vec :=
   match checked_mul cap (e_size e) with
   | None => Panic PCapacity
   | Some sz =>
@@ -370,7 +370,7 @@ Definition split_off (e : ecfg) (v : vec) (at_ : N) : outcome (vec * vec) :=
   if v_len v <? at_ then Panic PIndex
   else
     let other_len := v_len v - at_ in
-    match with_capacity e other_len with
+    match vwith_capacity e other_len with
     | Panic k => Panic k
     | Ret o =>
         let tail := firstn (nn other_len) (skipn (nn at_) (v_buf v)) in
@@ -379,3 +379,11 @@ Definition split_off (e : ecfg) (v : vec) (at_ : N) : outcome (vec * vec) :=
 
 (* dropping the vector: every element of the initialised prefix, front to back *)
 Definition drop_vec (v : vec) : list N := contents v.
+
+(* Extend::extend: reserve(size_hint().0), then push the items one by one *)
+Definition extend_iter (e : ecfg) (v : vec) (hint : N) (xs : list N) : outcome vec :=
+  match reserve e v hint false with
+  | Panic k => Panic k
+  | Ret v1 =>
+      fold_left (fun acc x => match acc with Panic k => Panic k | Ret w => push e w x end) xs (Ret v1)
+  end.
